@@ -147,7 +147,9 @@ def correspondence(ck):
     terms, exp = [], []
     cx = lambda z: "(%s, %s)" % (fhex(float(np.real(z))), fhex(float(np.imag(z))))
     nruns = 2 if ck.tier == "quick" else 10
-    for _ in range(nruns):
+    for _run in range(3 * nruns):
+        if _run >= nruns and len(exp) >= 8:
+            break
         N = 2500; fs = 2.0
         g = np.random.default_rng(ck.rng.randint(0, 2 ** 31))
         q = ck.rng.choice([1, 2, 3, 4])
@@ -155,21 +157,33 @@ def correspondence(ck):
         for a in range(1, q):
             X[a] = X[a] + ck.rng.choice([0.0, 0.5]) * np.roll(X[0], a)          # correlated inputs: T is not diagonal
         y = sum(ck.rng.uniform(-2, 2) * np.roll(x, ck.rng.choice([0, 1, 3])) for x in X) + 0.3 * g.standard_normal(N)
-        calls = []
-        orig = np.linalg.solve
+        calls = []          # one entry per bin, in order: (T, S, H) when np.linalg.solve produced H, None when the pseudo-inverse branch did
+        orig = np.linalg.solve; orig_pinv = np.linalg.pinv
         def rec(a, b, _o=orig):
-            out = _o(a, b); calls.append((np.array(a, complex), np.array(b, complex), np.array(out, complex))); return out
-        np.linalg.solve = rec
+            try:
+                out = _o(a, b)
+            except Exception:
+                calls.append("failed"); raise
+            calls.append((np.array(a, complex), np.array(b, complex), np.array(out, complex))); return out
+        def rec_pinv(a, *args, _o=orig_pinv, **kws):
+            if calls and calls[-1] == "failed":
+                calls[-1] = None
+            else:
+                calls.append(None)
+            return _o(a, *args, **kws)
+        np.linalg.solve = rec; np.linalg.pinv = rec_pinv
         try:
             with np.errstate(all="ignore"):
                 f, asd = SY.MISO_numeric_optimal_spectral_analysis(X, y, fs, **kw)
         finally:
-            np.linalg.solve = orig
+            np.linalg.solve = orig; np.linalg.pinv = orig_pinv
         with np.errstate(all="ignore"):
             S00 = np.asarray(SpectrumAnalyzer(y, fs, **kw).compute().Gxx, float)
         if len(calls) != len(f):
-            continue            # some bins went through pinv: not recorded
+            continue            # the solver was not called once per bin (np.linalg.cond may call into it on some builds): skip this run
         for k in sorted(set(ck.rng.randrange(len(f)) for _ in range(8))):
+            if calls[k] is None:
+                continue        # pseudo-inverse branch (singular or ill-conditioned bin, e.g. fewer segments than inputs)
             Tk, Sk, Hk = calls[k]
             Hs = "[" + "; ".join(cx(v) for v in Hk) + "]"; Ss = "[" + "; ".join(cx(v) for v in Sk) + "]"
             Ts = "[" + "; ".join("[" + "; ".join(cx(v) for v in row) + "]" for row in Tk) + "]"
